@@ -704,6 +704,12 @@ impl Terminal {
             if self.cursor.row == self.bottom_margin {
                 self.buffer.wrap(self.cursor.row);
                 self.scroll_up_in_region(1);
+
+                if self.bottom_margin < self.rows - 1 {
+                    // scrolling a region that ends above the last row cuts the
+                    // wrap mark of its last row - restore it on the row we left
+                    self.buffer.wrap(self.bottom_margin - 1);
+                }
             } else if self.cursor.row < self.rows - 1 {
                 self.buffer.wrap(self.cursor.row);
                 self.do_move_cursor_to_row(self.cursor.row + 1);
